@@ -479,7 +479,7 @@ reg("C08", needs_cli=True,
     timeout={"quick": 900, "thorough": 3000})
 reg("C09", needs_cli=True,
     rule="streams of 1..12 " + _CODEC_GEN + " (bodies up to 2000 / 20000 bytes) written by the real encoders through a writer that records the offset after every Encode call; gob and JSON "
-         "streams are cut at every byte offset (long streams in quick: a stride plus every record boundary +-2) and CSV streams at every record boundary, each prefix decoded by the real decoder; every 40th case runs the real `vegeta attack` against a local server, kills it (SIGKILL) about a second in and decodes its output file; all cases non-trivial",
+         "streams are cut at every byte offset (long streams in quick: a stride plus every record boundary +-2) and CSV streams at every record boundary, each prefix decoded by the real decoder; a sample of the gob / JSON prefixes (6 random offsets and every record boundary, -1, +1..8) is also decoded through format detection (DecoderFor) and, every 8th case, 3 prefixes through the `vegeta encode -to json` command; every 40th case runs the real `vegeta attack` against a local server, kills it (SIGKILL) about a second in and decodes its output file; all cases non-trivial",
     exhaustive="cut points of each generated gob / JSON stream up to 6000 bytes (all streams in thorough); record boundaries of CSV streams",
     clauses={1: "a cut stream decoded to something other than exactly the records completely written before the cut", 2: "an Encode call left a partial record in the stream",
              3: "results whose responses completed before the attack command was killed are missing from its output (results are held back instead of written as they arrive)"},
